@@ -149,9 +149,9 @@ Theorem C15_overwrite_only_named : forall enc : text -> option str,
 Proof. exact set_cookie_keyed. Qed.
 Print Assumptions C15_overwrite_only_named.
 
-Theorem C15_set_cookie_refused_keeps_others : forall (enc : text -> option str) hl a ov hl' e,
-  set_cookie enc hl a ov = (hl', Raise e) ->
-  hl' = hl \/ (ov = true /\ exists bname, enc (a_name a) = Some bname /\ hl' = drop_named bname hl).
+Theorem C15_set_cookie_refused_keeps_others : forall enc : text -> option str,
+  (forall t, is_ascii t = true -> enc t = Some t) ->
+  forall hl a ov hl' e, set_cookie enc hl a ov = (hl', Raise e) -> hl' = hl.
 Proof. exact set_cookie_refused. Qed.
 Print Assumptions C15_set_cookie_refused_keeps_others.
 
